@@ -87,6 +87,38 @@ pub struct FailErr(pub i64);
 impl Display for FailErr { fn fmt(&self, f: &mut Formatter<'_>) -> std::fmt::Result { write!(f, "{}", self.0) } }
 impl Error for FailErr {}
 
+// An EXTERNAL resource: its content lives outside the Pie instance (like a file on disk), so it can change while a Session is
+// alive.  Resource ids >= EXT_BASE use it (read-only from tasks, exact checker); ids below use the in-memory map resource.
+pub const EXT_BASE: u32 = 50;
+thread_local! { pub static EXT: RefCell<HashMap<u32, i64>> = RefCell::new(HashMap::new()); }
+pub fn ext_get(r: u32) -> Option<i64> { EXT.with(|m| m.borrow().get(&r).copied()) }
+pub fn ext_set(r: u32, v: Option<i64>) { EXT.with(|m| { match v { Some(z) => { m.borrow_mut().insert(r, z); } None => { m.borrow_mut().remove(&r); } } }) }
+#[derive(Clone, PartialEq, Eq, Hash)]
+pub struct X(pub u32);
+impl Debug for X { fn fmt(&self, f: &mut Formatter<'_>) -> std::fmt::Result { write!(f, "R({})", self.0) } }
+pub struct XW(pub u32);
+impl Resource for X {
+  type Reader<'rs> = Option<i64>;
+  type Writer<'r> = XW;
+  type Error = Infallible;
+  fn read<'rs, RS: ResourceState<Self>>(&self, _state: &'rs mut RS) -> Result<Option<i64>, Infallible> { Ok(ext_get(self.0)) }
+  fn write<'r, RS: ResourceState<Self>>(&'r self, _state: &'r mut RS) -> Result<XW, Infallible> { Ok(XW(self.0)) }
+}
+#[derive(Default, Copy, Clone, PartialEq, Eq, Hash, Debug)]
+pub struct XExact;
+impl ResourceChecker<X> for XExact {
+  type Stamp = i64;
+  type Error = Infallible;
+  fn stamp<RS: ResourceState<X>>(&self, key: &X, _state: &mut RS) -> Result<i64, Infallible> { Ok(stamp_exact(ext_get(key.0))) }
+  fn stamp_reader(&self, _key: &X, value: &mut Option<i64>) -> Result<i64, Infallible> { Ok(stamp_exact(*value)) }
+  fn stamp_writer(&self, key: &X, _writer: XW) -> Result<i64, Infallible> { Ok(stamp_exact(ext_get(key.0))) }
+  fn check<RS: ResourceState<X>>(&self, key: &X, _state: &mut RS, stamp: &i64) -> Result<Option<impl Debug>, Infallible> {
+    let now = stamp_exact(ext_get(key.0));
+    Ok(if now != *stamp { Some(now) } else { None })
+  }
+  fn wrap_error(&self, error: Infallible) -> Infallible { error }
+}
+
 pub fn stamp_exact(v: Option<i64>) -> i64 { match v { None => 0, Some(z) => z + 1 } }
 pub fn stamp_parity(v: Option<i64>) -> i64 { match v { None => 0, Some(z) => 1 + z.rem_euclid(2) } }
 pub fn stamp_exists(v: Option<i64>) -> i64 { match v { None => 0, Some(_) => 1 } }
@@ -222,6 +254,7 @@ fn eval_cond(b: &Cond, acc: i64, last: i64) -> bool {
 }
 
 fn do_read<C: Context>(ctx: &mut C, r: u32, c: u32) -> Result<i64, i64> {
+  if r >= EXT_BASE { return Ok(stamp_exact(ctx.read(&X(r), XExact).unwrap())); }
   let res = R(r);
   match c {
     0 => Ok(stamp_exact(ctx.read(&res, MapEqualsChecker).unwrap().copied())),
